@@ -563,7 +563,9 @@ def run_lockstep(side: str, steps: t.Sequence[t.Dict[str, t.Any]], probe_open: b
                 # the session would have accepted the same call with encodable arguments
                 tr.events.append(f"call:{what}:{pre.state}:unencodable-argument:{'else-accept' if verdict.accepted else 'else-refuse'}")
                 if out.ok:
-                    tr.add("call-accept", f"{side}:call-with-unencodable-argument-accepted", f"{where}: returned {out.value!r}, emitted {emitted.hex()}")
+                    # (a library that can encode such text after all - e.g. with an error handler - is not judged here:
+                    # what its bytes must be is C01/C03's business; the history ends because the model cannot follow)
+                    tr.events.append("call-with-unencodable-argument-accepted:history-ends")
                     tr.diverged = True
                     break
                 tr.refused_calls += 1
